@@ -25,8 +25,12 @@ def transcript(bseed, hashseed, oseed):
 
 class C20(Prop):
     id = "C20"
-    lean_modules = ["PkgProofs.Props.C20"]
-    theorems = ["C20.call_sound", "C20.cache_transparent", "C20.history_independent"]
+    lean_modules = ["PkgProofs.Props.C20", "PkgProofs.Props.C05", "PkgProofs.Props.C06", "PkgProofs.Props.C17", "PkgProofs.Props.C18"]
+    theorems = ["C20.call_sound", "C20.cache_transparent", "C20.history_independent",
+                # iteration-order invariance, proved next to the models that iterate a frozenset / dict
+                "C05.str_perm_invariant", "C05.contains_perm_invariant", "C05.clause_order_dup_invariant", "C06.set_filter_is_filter",
+                "C06.history_last_write_wins", "C06.calls_do_not_write", "C17.errors_are_exactly_offenders",
+                "C17.reads_history_independent", "C17.reads_keep_invariant", "C18.result_order_irrelevant"]
     rule = ("(a) lru_cache call histories (model vs functools); (b) one battery of ~75 public-API calls run in "
             "sub-processes under different PYTHONHASHSEED values and shuffled, doubled call orders, transcripts compared "
             "byte for byte with every argument deep-copied before and compared (value and hash) after the call; "
